@@ -139,6 +139,33 @@ def install():
     for mod in (ford.sourceform, ford.graphs, ford.fortran_project, ford.output, toposort):
         mod.__dict__["set"] = ChoiceSet
         _installed.append(mod)
+    # the order in which the file system enumerates a directory (os.listdir in the page tree) is owned too
+    import os as _os
+
+    import ford.pagetree
+
+    class _OsProxy:
+        def __getattr__(self, name):
+            return getattr(_os, name)
+
+        @staticmethod
+        def listdir(path="."):
+            order = sorted(_os.listdir(path))
+            ch = _CH[0]
+            if len(order) >= 2:
+                label = f"listdir:pagetree.py:{_os.path.basename(str(path))}:{len(order)}"
+                EVENTS.append(label)
+                if ch is not None:
+                    c = ch.choose(label, 4 if len(order) > 2 else 2)
+                    if c == 1:
+                        order.reverse()
+                    elif c == 2:
+                        order[0], order[1] = order[1], order[0]
+                    elif c == 3:
+                        order = order[1:] + order[:1]
+            return order
+
+    ford.pagetree.os = _OsProxy()
 
 
 def uninstall():
